@@ -22,7 +22,8 @@ PRE = re.compile(
 
 VALID = re.compile(
     r"\s*UPDATE (?P<vt>\S+)\s+SET (?P<endc>\S+) = transaction_id_value\s+WHERE\s+(?P<txc>\S+) = \(\s*"
-    r"SELECT MIN\((?P<txc2>\S+)\) FROM (?P<vt2>\S+)\s+WHERE (?P<endc2>\S+) IS NULL AND (?P<crit1>.*?)\s*\) AND\s+"
+    r"SELECT MIN\((?P<txc2>\S+)\) FROM (?P<vt2>\S+)\s+WHERE (?P<endc2>\S+) IS NULL AND\s+"
+    r"(?P<txc3>\S+) <> transaction_id_value AND\s+(?P<crit1>.*?)\s*\) AND\s+"
     r"(?P<crit2>.*?);", re.S)
 
 UPSERT = re.compile(
@@ -63,7 +64,7 @@ def parse_block(text, expect):
         if not m:
             break
         if m.group('vt') != expect['vt'] or m.group('vt2') != expect['vt'] or \
-                m.group('txc') != expect['txc'] or m.group('txc2') != expect['txc'] or \
+                m.group('txc') != expect['txc'] or m.group('txc2') != expect['txc'] or m.group('txc3') != expect['txc'] or \
                 m.group('endc') != expect['endc'] or m.group('endc2') != expect['endc']:
             raise ParseError('validity statement names %r' % m.groupdict())
         c1, c2 = parse_crit(m.group('crit1')), parse_crit(m.group('crit2'))
@@ -81,6 +82,13 @@ def parse_block(text, expect):
     for item in split(m.group('set'), ', '):
         if item == '%s = 1' % expect['opc']:
             upd.append(('op1',))
+            continue
+        if item == '%s = 2' % expect['opc']:
+            upd.append(('op2',))
+            continue
+        mm = re.match(r'^(\w+)_mod = True$', item)
+        if mm:
+            upd.append(('modtrue', mm.group(1)))
             continue
         mm = SET_COL.match(item)
         if mm and mm.group(1) == mm.group(3):
@@ -134,3 +142,30 @@ def parse_function(text, expect):
         excl.append(mm.group(1))
     return dict(excluded=excl, ins=parse_block(m.group('ins'), expect), upd=parse_block(m.group('upd'), expect),
                 delete=parse_block(m.group('del'), expect))
+
+
+# ---------------------------------------------------------------------------------------------------
+# raw statements of the three arms, for execution on an SQL engine (harness/pC14.py runs them on SQLite)
+def raw_block(text):
+    vals, pos = [], 0
+    while True:
+        m = VALID.match(text, pos)
+        if not m:
+            break
+        vals.append(m.group(0).strip().rstrip(';'))
+        pos = m.end()
+    m = UPSERT.match(text, pos)
+    if not m:
+        raise ParseError('upsert statement not recognised')
+    update = 'UPDATE %s SET %s WHERE %s = transaction_id_value AND %s' % (
+        m.group('vt'), m.group('set'), m.group('txc'), m.group('crit'))
+    insert = 'INSERT INTO %s (%s, %s, %s) SELECT transaction_id_value, %s, %s' % (
+        m.group('vt2'), m.group('txc2'), m.group('opc'), m.group('cols'), m.group('optype'), m.group('vals'))
+    return dict(validity=vals, update=update, insert=insert)
+
+
+def raw_arms(text):
+    m = PRE.match(text)
+    if not m:
+        raise ParseError('function skeleton not recognised')
+    return dict(ins=raw_block(m.group('ins')), upd=raw_block(m.group('upd')), delete=raw_block(m.group('del')))
